@@ -441,6 +441,61 @@ let wa_spec head toks obs =
       with Failure m -> "FAIL malformed-observable " ^ m
 
 (* ------------------------------------------------------------------ *)
+(* ab: the address manager's bookkeeping (AddrBook.step) on a script with the realised bucket hits *)
+let ab_keys = 6
+let ab_snap (s : AddrBook.st) =
+  let z x = Z.to_string (zt_of_z x) in
+  Printf.sprintf "%s,%s,%s,%s,%d/%s" (z (AddrBook.n_tried s)) (z (AddrBook.n_new s)) (z (AddrBook.in_tried s)) (z (AddrBook.in_new s))
+    (Stdlib.List.length (AddrBook.index s))
+    (Stdlib.String.concat "," (Stdlib.List.init ab_keys (fun i -> z (AddrBook.refs_of s (n_of_int (i + 1))))))
+
+let ab_model toks =
+  let s = ref AddrBook.init and out = ref [] and i = ref 0 in
+  (try
+     Stdlib.List.iter (fun t ->
+         if t <> "" then begin
+           incr i;
+           let n = Stdlib.String.length t in
+           (match t.[0] with
+            | 'A' ->
+              let hit = t.[n - 1] = '+' in
+              let body = Stdlib.String.sub t 1 (n - 2) in
+              let k = int_of_string (Stdlib.List.hd (split_on '.' body)) in
+              (* the bucket the manager's keyed hash chose is not observable: a hit is a bucket the address was not in *)
+              s := AddrBook.step !s (AddrBook.OpAdd (n_of_int k, n_of_int (1000 + !i), hit));
+              out := ab_snap !s :: !out
+            | 'G' -> s := AddrBook.step !s (AddrBook.OpGood (n_of_int (int_of_string (Stdlib.String.sub t 1 (n - 1))), n_of_int (2000 + !i)));
+              out := ab_snap !s :: !out
+            | 'B' -> s := AddrBook.step !s (AddrBook.OpBan (n_of_int (int_of_string (Stdlib.String.sub t 1 (n - 1)))));
+              out := ab_snap !s :: !out
+            | 'Q' -> out := ((if AddrBook.index !s = [] then "nil:" else "some:") ^ ab_snap !s) :: !out
+            | _ -> failwith "op")
+         end) toks;
+     Stdlib.String.concat ";" (Stdlib.List.rev !out)
+   with _ -> "BAD-INPUT")
+
+(* declarative oracle on the implementation's own observations: the counters are what the tables hold, the index
+   holds exactly the counted addresses, GetAddress returns, with an address iff one is known *)
+let ab_spec obs =
+  if obs = "BAD-INPUT" then "OK" else
+    let bad = Stdlib.List.find_map (fun w ->
+        let (pre, body) = match Stdlib.String.index_opt w ':' with
+          | Some k -> (Stdlib.String.sub w 0 k, Stdlib.String.sub w (k + 1) (Stdlib.String.length w - k - 1)) | None -> ("", w) in
+        if pre = "BLOCKED" then Some ("get-address-does-not-return " ^ w)
+        else if body = "LOCKED" || body = "SKIPPED" then Some ("address-manager-locked " ^ w)
+        else match split_on '/' body with
+          | [cs; _] ->
+            (match Stdlib.List.map int_of_string (split_on ',' cs) with
+             | [nt; nn; it; inn; idx] ->
+               if nt <> it || nn <> inn || idx <> nt + nn then Some ("addrmgr-counters-disagree " ^ w)
+               else if pre = "nil" && idx > 0 then Some ("no-address-although-one-is-known " ^ w)
+               else if pre = "some" && idx = 0 then Some ("address-from-an-empty-book " ^ w)
+               else None
+             | _ -> Some ("malformed-observable " ^ w))
+          | _ -> Some ("malformed-observable " ^ w)) (split_on ';' obs) in
+    match bad with None -> "OK" | Some m -> "FAIL " ^ m
+
+(* ------------------------------------------------------------------ *)
 (* na: the outbound address selection (AddrSearch.new_address) on a scripted sequence of draws *)
 let na_parse head toks =
   let used = Stdlib.List.concat_map (fun w ->
@@ -507,6 +562,7 @@ let model input =
   | ("wr" :: _ as head), toks -> wr_model head toks
   | ("wa" :: _ as head), toks -> wa_model head toks
   | ("na" :: _ as head), toks -> na_model head toks
+  | ["ab"], toks -> ab_model toks
   | _ -> "BAD-INPUT"
 
 let spec input obs =
@@ -516,6 +572,7 @@ let spec input obs =
   | ("wr" :: _ as head), toks -> wr_spec head toks obs
   | ("wa" :: _ as head), toks -> wa_spec head toks obs
   | ("na" :: _ as head), toks -> na_spec head toks obs
+  | ["ab"], _ -> ab_spec obs
   | _ -> if obs = "BAD-INPUT" then "OK" else "FAIL malformed-observable"
 
 let () = run_driver model spec
